@@ -75,6 +75,12 @@ def Res.isPanic {σ : Type} : Res σ → Bool
   | .panic _ => true
   | _ => false
 
+deriving instance DecidableEq for Res
+
+instance (env : Env) : Decidable (WF env) := by unfold WF; infer_instance
+instance (env : Env) (c : Ct) : Decidable (c.inv env) := by unfold Ct.inv; infer_instance
+instance (env : Env) (c : Ct) : Decidable (c.compact env) := by unfold Ct.compact; infer_instance
+
 theorem compact_inv (env : Env) (c : Ct) (hw : WF env) (h : c.compact env) : c.inv env := by
   unfold Ct.compact at h
   unfold Ct.inv
@@ -882,5 +888,212 @@ theorem stepR_ok_inv (env : Env) (hw : WF env) (pool pool' : Pool) (op : Op) (hI
     obtain ⟨cd, c, hcd, hf, rfl⟩ := op1_ok _ _ _ _ h
     have := decrypt_ok _ _ _ _ hf
     exact Inv_set _ _ _ _ hI (this ▸ hI _ (mem_of_get? _ _ _ hcd))
+
+/-! ## the hypotheses under which a call cannot panic -/
+
+def compactAt (env : Env) (pool : Pool) (i : Nat) : Prop := ∀ c, pool[i]? = some c → c.compact env
+
+/-- `Safe env pool op`: what the caller must guarantee for `op` in state `pool` so that the pinned code
+neither panics nor returns Ok with inconsistent metadata.  Each clause excludes one reproduced defect
+(docs/C16.md): non-compact operands of the tensor / mul-plain entry points, a ZNX plaintext of another
+radix in a multiplication, a constant more precise than the ciphertext, a zero-precision plaintext,
+an encryption position outside the buffer, `ckks_rescale_into` with too small a destination. -/
+def Safe (env : Env) (pool : Pool) : Op → Prop
+  | .enc d k pt => 0 < k ∧ 0 < pt.md.effK ∧ ∀ cd, pool[d]? = some cd → divCeil k env.base2k ≤ cd.size
+  | .addPtZnx _ _ pt => 0 < pt.md.effK
+  | .addPtZnxAssign _ pt => 0 < pt.md.effK
+  | .addPtRnx _ _ prec => 0 < prec.effK
+  | .addPtRnxAssign _ prec => 0 < prec.effK
+  | .addCstRnx _ a prec _ _ => 0 < prec.logDelta ∧ ∀ ca, pool[a]? = some ca → prec.logDelta ≤ ca.md.logDelta
+  | .addCstRnxAssign d prec _ _ => 0 < prec.logDelta ∧ ∀ cd, pool[d]? = some cd → prec.logDelta ≤ cd.md.logDelta
+  | .addCstZnx d _ k _ _ _ => 0 < k ∧ ∀ cd, pool[d]? = some cd → divCeil k env.base2k ≤ cd.size
+  | .addCstZnxAssign d k _ _ _ => 0 < k ∧ ∀ cd, pool[d]? = some cd → divCeil k env.base2k ≤ cd.size
+  | .mul _ a b => compactAt env pool a ∧ compactAt env pool b
+  | .mulAssign d a => compactAt env pool d ∧ compactAt env pool a
+  | .square _ a => compactAt env pool a
+  | .squareAssign d => compactAt env pool d
+  | .mulPtZnx _ a pt => pt.base2k = env.base2k ∧ 0 < pt.md.effK ∧ compactAt env pool a
+  | .mulPtZnxAssign d pt => pt.base2k = env.base2k ∧ 0 < pt.md.effK ∧ compactAt env pool d
+  | .mulPtRnx _ a prec => 0 < prec.effK ∧ compactAt env pool a
+  | .mulPtRnxAssign d prec => 0 < prec.effK ∧ compactAt env pool d
+  | .mulCstRnx _ _ prec _ _ => 0 < prec.effK
+  | .mulCstRnxAssign _ prec _ _ => 0 < prec.effK
+  | .mulAddCt _ a b => compactAt env pool a ∧ compactAt env pool b
+  | .mulAddPtZnx _ a pt => pt.base2k = env.base2k ∧ 0 < pt.md.effK ∧ compactAt env pool a
+  | .mulAddPtRnx _ a prec => 0 < prec.effK ∧ compactAt env pool a
+  | .mulAddCstRnx _ _ prec _ _ => 0 < prec.effK
+  | .rescale d k a => ∀ cd ca, pool[d]? = some cd → pool[a]? = some ca → ca.md.effK - k ≤ cd.maxK env
+  | _ => True
+
+theorem Safe_rescaleFits (env : Env) (pool : Pool) (op : Op) (h : Safe env pool op) : RescaleFits env pool op := by
+  cases op <;> simp only [RescaleFits] <;> first | trivial | exact h
+
+theorem putRes_no_panic (pool : Pool) (d : Nat) (r : Res Ct) (h : r.isPanic = false) : (putRes pool d r).isPanic = false := by
+  cases r <;> simp_all [putRes, Res.isPanic]
+
+theorem op1_no_panic (pool : Pool) (d : Nat) (f : Ct → Res Ct)
+    (h : ∀ cd, pool[d]? = some cd → (f cd).isPanic = false) : (op1 pool d f).isPanic = false := by
+  simp only [op1]
+  split
+  · next cd hcd => exact putRes_no_panic _ _ _ (h cd hcd)
+  · simp [Res.isPanic]
+
+theorem op2_no_panic (pool : Pool) (d a : Nat) (f : Ct → Ct → Res Ct)
+    (h : ∀ cd ca, pool[d]? = some cd → pool[a]? = some ca → (f cd ca).isPanic = false) :
+    (op2 pool d a f).isPanic = false := by
+  simp only [op2]
+  split
+  · next cd ca hcd hca =>
+    split
+    · simp [Res.isPanic]
+    · exact putRes_no_panic _ _ _ (h cd ca hcd hca)
+  · simp [Res.isPanic]
+
+theorem op3_no_panic (pool : Pool) (d a b : Nat) (f : Ct → Ct → Ct → Res Ct)
+    (h : ∀ cd ca cb, pool[d]? = some cd → pool[a]? = some ca → pool[b]? = some cb → (f cd ca cb).isPanic = false) :
+    (op3 pool d a b f).isPanic = false := by
+  simp only [op3]
+  split
+  · next cd ca cb hcd hca hcb =>
+    split
+    · simp [Res.isPanic]
+    · exact putRes_no_panic _ _ _ (h cd ca cb hcd hca hcb)
+  · simp [Res.isPanic]
+
+theorem alignStep_no_panic (env : Env) (pool : Pool) (a b : Nat) : (alignStep env pool a b).isPanic = false := by
+  simp only [alignStep, usub]
+  split
+  · next ca cb hca hcb =>
+    split
+    · simp [Res.isPanic]
+    · split
+      · split
+        · next h => split at h <;> simp_all <;> omega
+        · exact putRes_no_panic _ _ _ (rescaleAssign_no_panic _ _ _)
+      · split
+        · next h => split at h <;> simp_all <;> omega
+        · exact putRes_no_panic _ _ _ (rescaleAssign_no_panic _ _ _)
+  · simp [Res.isPanic]
+
+theorem ok_no_panic {σ : Type} (s : σ) : (Res.ok s : Res σ).isPanic = false := rfl
+
+/-- one API call does not panic when the state fits its storage and the call is `Safe` -/
+theorem stepR_no_panic (env : Env) (hw : WF env) (pool : Pool) (op : Op) (hI : Inv env pool)
+    (hs : Safe env pool op) : (stepR env pool op).isPanic = false := by
+  cases op <;> simp only [stepR] <;> simp only [Safe] at hs
+  case enc d k pt =>
+    exact op1_no_panic _ _ _ (fun cd hcd => withPt_no_panic _ _ _ _ hs.2.1 (encrypt_no_panic _ _ _ _ hs.1 (hs.2.2 cd hcd)))
+  case addCt d a b => exact op3_no_panic _ _ _ _ _ (fun _ _ _ _ _ _ => addCtInto_no_panic _ _ _ _)
+  case addCtAssign d a => exact op2_no_panic _ _ _ _ (fun _ _ _ _ => addCtAssign_no_panic _ _ _)
+  case addPtZnx d a pt =>
+    exact op2_no_panic _ _ _ _ (fun _ _ _ _ => withPt_no_panic _ _ _ _ hs (addPtZnxInto_no_panic _ _ _ _))
+  case addPtZnxAssign d pt =>
+    exact op1_no_panic _ _ _ (fun _ _ => withPt_no_panic _ _ _ _ hs (ptAlign_no_panic _ _ _))
+  case addPtRnx d a prec => exact op2_no_panic _ _ _ _ (fun _ _ _ _ => addPtRnxInto_no_panic _ hw _ _ _ hs)
+  case addPtRnxAssign d prec => exact op1_no_panic _ _ _ (fun _ _ => addPtRnxAssign_no_panic _ hw _ _ hs)
+  case addCstRnx d a prec re im =>
+    exact op2_no_panic _ _ _ _ (fun _ ca _ hca => addCstRnxInto_no_panic _ hw _ _ _ _ _ hs.1 (hs.2 ca hca))
+  case addCstRnxAssign d prec re im =>
+    exact op1_no_panic _ _ _ (fun cd hcd =>
+      addCstRnxAssign_no_panic _ hw _ _ _ _ (hI _ (mem_of_get? _ _ _ hcd)) hs.1 (hs.2 cd hcd))
+  case addCstZnx d a k ld re im =>
+    exact op2_no_panic _ _ _ _ (fun cd _ hcd _ => addCstZnxIntoK_no_panic _ _ _ _ _ _ _ (hs.2 cd hcd) hs.1)
+  case addCstZnxAssign d k ld re im =>
+    exact op1_no_panic _ _ _ (fun cd hcd => addCstZnxAssignK_no_panic _ _ _ _ _ _ (hs.2 cd hcd) hs.1)
+  case neg d a => exact op2_no_panic _ _ _ _ (fun _ _ _ _ => negInto_no_panic _ _ _)
+  case negAssign d => exact op1_no_panic _ _ _ (fun _ _ => ok_no_panic _)
+  case mul d a b =>
+    exact op3_no_panic _ _ _ _ _ (fun _ ca cb _ hca hcb => mulInto_no_panic _ hw _ _ _ (hs.1 ca hca) (hs.2 cb hcb))
+  case mulAssign d a =>
+    exact op2_no_panic _ _ _ _ (fun cd ca hcd hca => mulInto_no_panic _ hw _ _ _ (hs.1 cd hcd) (hs.2 ca hca))
+  case square d a => exact op2_no_panic _ _ _ _ (fun _ ca _ hca => squareInto_no_panic _ hw _ _ (hs ca hca))
+  case squareAssign d => exact op1_no_panic _ _ _ (fun cd hcd => squareInto_no_panic _ hw _ _ (hs cd hcd))
+  case mulPtZnx d a pt =>
+    exact op2_no_panic _ _ _ _ (fun _ ca _ hca =>
+      withPt_no_panic _ _ _ _ hs.2.1 (mulPtZnxInto_no_panic _ hw _ _ _ hs.1 (hs.2.2 ca hca)))
+  case mulPtZnxAssign d pt =>
+    exact op1_no_panic _ _ _ (fun cd hcd =>
+      withPt_no_panic _ _ _ _ hs.2.1 (mulPtZnxInto_no_panic _ hw _ _ _ hs.1 (hs.2.2 cd hcd)))
+  case mulPtRnx d a prec =>
+    exact op2_no_panic _ _ _ _ (fun _ ca _ hca => mulPtRnxInto_no_panic _ hw _ _ _ hs.1 (hs.2 ca hca))
+  case mulPtRnxAssign d prec =>
+    exact op1_no_panic _ _ _ (fun cd hcd => mulPtRnxInto_no_panic _ hw _ _ _ hs.1 (hs.2 cd hcd))
+  case mulCstRnx d a prec re im =>
+    exact op2_no_panic _ _ _ _ (fun _ ca _ hca => mulCstRnx_no_panic _ hw _ _ _ _ _ _ (hI _ (mem_of_get? _ _ _ hca)) hs)
+  case mulCstRnxAssign d prec re im =>
+    exact op1_no_panic _ _ _ (fun cd hcd => mulCstRnx_no_panic _ hw _ _ _ _ _ _ (hI _ (mem_of_get? _ _ _ hcd)) hs)
+  case mulAddCt d a b =>
+    exact op3_no_panic _ _ _ _ _ (fun _ ca cb _ hca hcb =>
+      mulAddWith_no_panic _ _ _ (mulInto_no_panic _ hw _ _ _ (hs.1 ca hca) (hs.2 cb hcb)))
+  case mulAddPtZnx d a pt =>
+    exact op2_no_panic _ _ _ _ (fun _ ca _ hca =>
+      withPt_no_panic _ _ _ _ hs.2.1 (mulAddWith_no_panic _ _ _ (mulPtZnxInto_no_panic _ hw _ _ _ hs.1 (hs.2.2 ca hca))))
+  case mulAddPtRnx d a prec =>
+    exact op2_no_panic _ _ _ _ (fun _ ca _ hca =>
+      mulAddWith_no_panic _ _ _ (mulPtRnxInto_no_panic _ hw _ _ _ hs.1 (hs.2 ca hca)))
+  case mulAddCstRnx d a prec re im =>
+    refine op2_no_panic _ _ _ _ (fun cd ca _ hca => ?_)
+    simp only [mulAddCstRnx]
+    split
+    · rfl
+    · exact mulAddWith_no_panic _ _ _ (mulCstRnx_no_panic _ hw _ _ _ _ _ _ (hI _ (mem_of_get? _ _ _ hca)) hs)
+  case mulPow2 d a bits => exact op2_no_panic _ _ _ _ (fun _ _ _ _ => shiftInto_no_panic _ _ _ _)
+  case mulPow2Assign d bits => exact op1_no_panic _ _ _ (fun _ _ => ok_no_panic _)
+  case divPow2 d a bits => exact op2_no_panic _ _ _ _ (fun _ _ _ _ => divPow2Into_no_panic _ _ _ _)
+  case divPow2Assign d bits => exact op1_no_panic _ _ _ (fun _ _ => divPow2Assign_no_panic _ _ _)
+  case rot d a k => exact op2_no_panic _ _ _ _ (fun _ _ _ _ => rotateInto_no_panic _ _ _ _)
+  case rotAssign d k => exact op1_no_panic _ _ _ (fun _ _ => rotateAssign_no_panic _ _ _)
+  case conj d a => exact op2_no_panic _ _ _ _ (fun _ _ _ _ => shiftInto_no_panic _ _ _ _)
+  case conjAssign d => exact op1_no_panic _ _ _ (fun _ _ => ok_no_panic _)
+  case rescale d k a => exact op2_no_panic _ _ _ _ (fun _ _ _ _ => rescaleInto_no_panic _ _ _ _)
+  case rescaleAssign d k => exact op1_no_panic _ _ _ (fun _ _ => rescaleAssign_no_panic _ _ _)
+  case align a b => exact alignStep_no_panic _ _ _ _
+  case compact d => exact op1_no_panic _ _ _ (fun _ _ => realloc_no_panic _ _ _)
+  case realloc d size => exact op1_no_panic _ _ _ (fun _ _ => realloc_no_panic _ _ _)
+  case compactCopy d a =>
+    exact op2_no_panic _ _ _ _ (fun _ ca _ hca => compactCopy_no_panic _ hw _ _ (hI _ (mem_of_get? _ _ _ hca)))
+  case setMeta d m => exact op1_no_panic _ _ _ (fun _ _ => setMeta_no_panic _ _ _)
+  case dec a pt => exact op1_no_panic _ _ _ (fun _ _ => decrypt_no_panic _ _ _)
+
+/-! ## programs -/
+
+/-- `P` holds at every state the run reaches (as long as the calls return Ok) -/
+def Along (P : Env → Pool → Op → Prop) (env : Env) : Pool → List Op → Prop
+  | _, [] => True
+  | s, op :: rest => P env s op ∧ ∀ s', stepR env s op = .ok s' → Along P env s' rest
+
+theorem run_ok_inv (env : Env) (hw : WF env) (prog : List Op) :
+    ∀ (s s' : Pool), Inv env s → Along RescaleFits env s prog → run env s prog = .ok s' → Inv env s' := by
+  induction prog with
+  | nil => intro s s' hI _ h; simp only [run] at h; injection h with h; exact h ▸ hI
+  | cons op rest ih =>
+    intro s s' hI hA h
+    simp only [run] at h
+    obtain ⟨h1, h2⟩ := hA
+    split at h
+    · next s1 hs1 => exact ih s1 s' (stepR_ok_inv env hw s s1 op hI h1 hs1) (h2 s1 hs1) h
+    · next r hne =>
+      cases hr : stepR env s op with
+      | ok s1 => exact absurd hr (hne s1)
+      | err e s1 => rw [hr] at h; cases h
+      | panic p => rw [hr] at h; cases h
+
+theorem run_no_panic (env : Env) (hw : WF env) (prog : List Op) :
+    ∀ (s : Pool), Inv env s → Along Safe env s prog → (run env s prog).isPanic = false := by
+  induction prog with
+  | nil => intro s _ _; rfl
+  | cons op rest ih =>
+    intro s hI hA
+    obtain ⟨h1, h2⟩ := hA
+    have hp := stepR_no_panic env hw s op hI h1
+    simp only [run]
+    split
+    · next s1 hs1 =>
+      exact ih s1 (stepR_ok_inv env hw s s1 op hI (Safe_rescaleFits _ _ _ h1) hs1) (h2 s1 hs1)
+    · next r hne =>
+      cases hr : stepR env s op with
+      | ok s1 => exact absurd hr (hne s1)
+      | err e s1 => rfl
+      | panic p => rw [hr] at hp; simp [Res.isPanic] at hp
 
 end Ckks
